@@ -1,5 +1,6 @@
 import VoluteModel.Model.Api
 import VoluteModel.Model.Sop
+import VoluteModel.Model.Optim
 import VoluteModel.Spec.EvalText
 
 /-!
@@ -472,6 +473,18 @@ def step (line : String) : String :=
       s!"ok {showBool s.isZero} {showBool s.isOne} {s.numCubes} {s.numLits}" | _, _ => "bad-op")
   | ["soes", "display", n, a] => (match n.toNat?, parseEcubes a with
     | some n, some a => "ok " ++ showBytes (Display.soes ⟨n, a⟩) | _, _ => "bad-op")
+  -- C18
+  | "mipcand" :: _ :: tabs =>
+    (match tabs.mapM parseTab with
+    | some ls => s!"ok {showCubes (Optim.enumerateValidCubesMulti ls)} {showEcubes (Optim.enumerateValidEcubesMulti ls)}"
+    | none => "bad-op")
+  | "mip" :: kind :: a :: x :: o :: tabs =>
+    (match a.toNat?, x.toNat?, o.toNat?, tabs.mapM parseTab with
+    | some a, some x, some o, some ls =>
+      (match Optim.optimum kind a x o ls with
+      | some c => s!"ok {c}"
+      | none => "ok ?")
+    | _, _, _, _ => "bad-op")
   -- C16: evaluate a printed formula (bytes) on an assignment
   | ["evaltext", s, m] => (match parseBytes s, parseHexNat m with
     | some b, some m => (match Spec.evalText b m with
